@@ -9,6 +9,33 @@ fn usage() -> ! {
 
 fn main() {
     let args: Vec<String> = std::env::args().collect();
+    if args.len() >= 5 && args[1] == "fuzz-replay" {
+        // clv fuzz-replay <target> <property> <file>: re-judge a fuzzer artifact
+        install_quiet_panic_hook();
+        let data = std::fs::read(&args[4]).unwrap_or_else(|e| {
+            eprintln!("cannot read {}: {e}", args[4]);
+            std::process::exit(2)
+        });
+        let r = catch(|| clv::fuzzdec::fuzz_one(&args[2], &args[3], &data));
+        match r {
+            Ok(Ok(())) => {
+                println!("fuzz-replay: input passes the oracle");
+                std::process::exit(0)
+            }
+            Ok(Err(f)) if f.signature == "harness" => {
+                eprintln!("fuzz-replay: harness problem: {}", f.message);
+                std::process::exit(2)
+            }
+            Ok(Err(f)) => {
+                println!("fuzz-replay: violation [{}] {}", f.signature, f.message);
+                std::process::exit(1)
+            }
+            Err(msg) => {
+                println!("fuzz-replay: panic outside panic capture: {msg}");
+                std::process::exit(1)
+            }
+        }
+    }
     if args.len() < 3 || args[1] != "run" {
         usage();
     }
